@@ -220,6 +220,8 @@ def C13(prog: Program, run: Run, tier: str) -> None:
     run.add(specific.rule_fill(prog), "R-FILL one fill resolver for uncovered chunks, covered chunks and the in-memory path; precedence dst_nodata > src_nodata > NaN(float) > 0; missing dependency => constant fill block")
     run.add(api.rule_api(prog, {"_dask", "_blocks", "warp"} if tier == "quick" else None), "R-API code path exists in the installed numpy/dask/rasterio")
     run.add(specific.rule_empty(prog), "R-EMPTY disjoint rasters cannot raise from an empty footprint")
+    run.add([i for i in extra.tile_query(prog) if "grid_intersect" in i.construct or "_check_linear" in i.construct],
+            "R-GUARDSEQ the chunk dependency graph: linear path maps each tile's own box through A and rounds outwards, general path queries with the tile's own extent")
     run.add(_fwd(prog, {"_dask", "warp"}), FWD_DESC)
     run.add(axis.rule_axis(prog, {"_dask", "warp", "_blocks"}), AXIS_DESC)
     run.floor("R-FILL|", 12)
